@@ -12,10 +12,13 @@
    Together with the convergence of the replicated state (C04: merge is order-, grouping- and
    duplicate-insensitive) this gives the property at quiescence for every peer that is a member.
 
-   What remains false of the current tree (C05_returning_peer_refuted, finding F7, replayed on real
-   brokers): a peer that was declared unreachable is dropped from the member list and is only put
-   back by a payload that changes one of its entries, so after it comes back its unchanged live
-   subscriptions are not routed to until its next change. *)
+   No schedule is known on which the current tree fails the property (the former witnesses F4 / F5,
+   F7, F7c were repaired in /repo and are kept as regression examples); what is NOT proved is the
+   composition: that the views do converge once gossip has quiesced (C04 proves the algebra of merge,
+   not the liveness of the transport) and that every reachable peer is a member (it becomes one with
+   the first payload that changes one of its entries and whenever the periodic update sees it).
+   The harness checks the end result - routing equals the ground truth and every publish reaches
+   every live subscriber once - at the end of every schedule on real brokers. *)
 From stdpp Require Import gmap.
 From Coq Require Import ZArith List.
 From Emitter Require Import Model.Lww Model.Sender Model.Cluster Proofs.LwwProofs Proofs.ClusterProofs Findings.C05.
@@ -74,18 +77,14 @@ Theorem C05_transport_keeps_everything : forall pending data,
 Proof. intros. split; reflexivity. Qed.
 Print Assumptions C05_transport_keeps_everything.
 
-(* the full statement, over all schedules including peers going away and coming back, does not
-   hold: a drained cluster after full-state exchange whose routing differs from the ground truth *)
-Definition routing_ok (w : world) : bool :=
-  forallb (fun b => let r := bk_remote (get_broker w b) in let t := truth_remote w b in
-                    forallb (fun x => existsb (Cluster.pair_eqb x) t) r && forallb (fun x => existsb (Cluster.pair_eqb x) r) t)
-          (names w).
-
-Theorem C05_all_schedules_refuted :
-  exists ns es b s, quiet (run ns es) = true /\ routing_ok (run ns es) = false
-                    /\ length (receivers (run ns es) b s) <> length (live_subscribers (run ns es) s).
-Proof. exists [1; 2; 3], f7_schedule, 3, 1. vm_compute. repeat split; discriminate. Qed.
-Print Assumptions C05_all_schedules_refuted.
+(* the schedules that used to refute the property (findings F4 / F5, F7, F7c - all repaired) now end
+   with every broker's routing equal to the ground truth *)
+Theorem C05_former_witnesses_route_correctly :
+  (let w := run [1; 2] f5_schedule in quiet w && routing_ok w) = true
+  /\ (let w := run [1; 2; 3] f7_schedule in quiet w && routing_ok w) = true
+  /\ (let w := run [1; 2] f7c_schedule in quiet w && routing_ok w) = true.
+Proof. exact C05_former_witnesses_route_correctly. Qed.
+Print Assumptions C05_former_witnesses_route_correctly.
 
 (* the invariant is not vacuous: a broker that merged a coalesced unsubscribe-and-resubscribe (the
    payload that the delta-counting merge counted twice) and the final unsubscribe *)
